@@ -81,6 +81,13 @@ Theorem C18_varint_rejects_overflow : forall w fuel n enc rest v r, w = 32 \/ w 
 Proof. exact varint_overflow. Qed.
 Print Assumptions C18_varint_rejects_overflow.
 
+(* the writer's bytes carry the value the format comment in serialize.h documents:
+   (a[len-1] & 0x7F) + sum(i=1..len-1, 128^i * ((a[len-i-1] & 0x7F) + 1)) *)
+Theorem C18_varint_matches_documented_formula : forall w n enc, w = 32 \/ w = 64 -> 0 <= n <= 2 ^ w - 1 ->
+  write_varint w n = Some enc -> varint_value enc = n.
+Proof. exact varint_documented_value. Qed.
+Print Assumptions C18_varint_matches_documented_formula.
+
 (* ---- scripts ---- *)
 
 (* Every script of at most MAX_SCRIPT_SIZE bytes (every spendable script) is read back unchanged,
